@@ -280,8 +280,18 @@ class C12(PropBase):
                 "termination, no panic/ill-formed continuation and the counter theorems are stated and proved for it "
                 "(c12_source_*): an edit of those bodies changes the program the theorems are about; the two seeded shapes (retry "
                 "after ParseError, non-waiting probe in walk_frame) are programs of the same instruction set on which the interpreter "
-                "refutes the property (c12_retry_program_refuted, c12_probe_program_refuted). The correspondence run of modes 0, 2, "
-                "5, 6, 7 executes that interpreter on the regenerated program. The model is tied to the real Symbolizer / "
+                "refutes the property (c12_retry_program_refuted, c12_probe_program_refuted); the wake-driven executor, join_all and "
+                "schedule independence are transported to it (c12_source_wake_driven_finishes, c12_source_no_lost_wakeup, "
+                "c12_source_join_all, c12_source_schedule_independent). INSTRUCTION-level interleavings of the regenerated program "
+                "(one instruction of one task per step, any order: between lock().await and the test of the slot, between "
+                "`symbols_requested += 1` and the supplier call, between the store and the unlock other tasks run): mutual exclusion "
+                "per slot, at most one supplier call per slot, every recorded result and every remembered value is the slot's single "
+                "answer, no panic / ill-formed continuation, results complete and every requested slot fetched exactly once at "
+                "quiescence, processed <= requested <= distinct always and all equal at quiescence, no deadlock (some unfinished "
+                "task is not waiting for a held lock), a progress measure that no step increases and every non-waiting step lowers "
+                "(c12_source_instr_*); every poll schedule is an instruction schedule (c12_source_polls_are_instruction_schedules). "
+                "The correspondence run of modes 0, 2, 5, 6, 7 executes the interpreter on the regenerated program next to the "
+                "hand-written model (their answers must be identical). The model is tied to the real Symbolizer / "
                 "HttpSymbolSupplier by polling boxed futures in the case's order (exhaustive small spaces, random larger ones, "
                 "wake-driven, join_all flat/nested/>30 children, drops, loopback HTTP) and by real multi-threaded tokio runs (2..8 workers; "
                 "schedule-independent observables only) in debug and release; an independent oracle re-checks the property on "
@@ -289,14 +299,17 @@ class C12(PropBase):
         "note": "Trusted: Coq kernel; hand-written model of CachedAsyncResult/get_symbols/futures Mutex incl. waiter slab and drop hand-over "
                 "(correspondence-checked by full poll traces, not verified); extraction + OCaml/Rust glue; the supplier is assumed to "
                 "wake the task whenever it answers Pending; atomicity of the five micro actions under real threads (std Mutex, "
-                "futures Mutex internals) is trusted, exercised by mode 5 only; micro-schedule liveness is a measure argument (no "
-                "fairness-to-termination theorem at that granularity; the poll-level ones are c12_no_lost_request / "
-                "c12_wake_driven_finishes). Cancellation of the lock holder is outside the property. No axioms.",
+                "futures Mutex internals) is trusted, exercised by mode 5 only; round 5 refines them to single instructions of the regenerated "
+                "program (each touches one mutex-protected object or only the task's locals; that atomicity and ProgModel.istep's "
+                "reading of each instruction are trusted); micro-schedule and instruction-level liveness is a measure argument (no "
+                "fairness-to-termination theorem at those granularities; the poll-level ones are c12_no_lost_request / "
+                "c12_wake_driven_finishes / c12_source_fair_schedule_finishes); waker registration is poll-level (WakeModel). Cancellation of the lock holder is outside the property. No axioms.",
     }
     assumptions = ["no cancellation of a requester that holds the slot's lock inside the supplier (excluded by the property); dropping a "
                    "requester that merely waits is covered by c12_drop_waiter_* and mode 3",
                    "poll-level and wake-up theorems: one executor thread polls the tasks; micro-step theorems (c12_fine_*): any number "
-                   "of threads, each of wait/hit/begin/tick/complete atomic; std::sync::Mutex / Arc / atomics are assumed correct",
+                   "of threads, each of wait/hit/begin/tick/complete atomic; instruction-level theorems (c12_source_instr_*): any number of "
+                   "threads, each instruction of Gen/C12Program.v atomic; std::sync::Mutex / Arc / atomics are assumed correct",
                    "locate_file_internal: distinct file keys of a configuration have distinct on-disk cache paths (otherwise one "
                    "download can satisfy the other's local lookup — C16's subject)"]
 
